@@ -493,8 +493,9 @@ func init() {
 		bs := []tmpl{hField("a"), hCur(), buildChain(hNone(), sIndex("0")), buildChain(hNone(), sProj(), sField("a")), buildChain(hNone(), sFlat()),
 			buildChain(hNone(), sVproj()), hList(hCur(), hField("a")), call("type", hCur()), call("abs", hCur()), tNot(hCur()),
 			buildChain(hNone(), sFilter(hField("a"))), buildChain(hNone(), sSlice("1", "_", "_")), call("length", hCur()), tOr(hField("a"), hCur())}
+		bs = append([]tmpl{hRaw("v"), hLit(`"w"`)}, bs...)
 		if tier != "thorough" {
-			return as[:10], bs[:10]
+			return as[:10], bs[:12]
 		}
 		return as, bs
 	}
@@ -532,7 +533,7 @@ func init() {
 					if b.prec != 0 && b.prec < precChain {
 						bt = "(" + bt + ")"
 					}
-					j := jobOf("VerifPipeLaw", []string{"C15"}, "a", at, "b", bt, "mode", itoa(m), "depth", "2")
+					j := jobOf("VerifPipeLaw", []string{"C15"}, "a", at, "b", bt, "mode", itoa(m), "depth", "2", "first", "'it\\'s")
 					j.W, j.S, j.Keys = 2, 1, []string{"a", "b"}
 					j.Unwind = 64 + 4*(len(at)+len(bt))
 					j.WitEvery = 60
